@@ -9,7 +9,7 @@
     decides Leibniz equality and a comparator that is a strict total order consistent with it;
     the oracle [draw] behind the unordered set's random iteration is arbitrary. *)
 From Coq Require Import Permutation Sorted.
-From Algo.C16 Require Import Model Spec ProofsList ProofsSet.
+From Algo.C16 Require Import Model Spec ProofsList ProofsSet ProofsHeap ProofsProg.
 Local Open Scope Z_scope.
 
 Section C16.
@@ -82,6 +82,60 @@ Section C16.
         (forall x, In x (vm u) <-> In x (vm s) /\ forall r, In r sets -> ~ In x (vm r)) /\
         (vk s <> Sorted -> exists f, vm u = filter f (vm s)).
   Proof. intros; eapply vdifference_spec; eauto. Qed.
+
+  (** *** The heap layer: Go slices on a store of backing arrays, any growth policy of append.
+      [abs h] reads every object of heap [h] as a set value; [good h] = no two objects share a
+      backing array, every slice header lies within its array, and every object is a
+      well-formed set.  [hexec]/[hrun] run commands on the heap layer, [vexec]/[vrun] the same
+      commands on set values, where operands are looked up and never changed. *)
+  Local Open Scope nat_scope.
+  Variable zero : A.
+  Variable grow : nat -> nat -> nat.
+  Hypothesis grow_ok : forall c n, n <= grow c n.
+
+  (** Any command (Add/Remove/RemoveAll, every query, Clone, CloneEmpty, Union/Intersection/
+      Difference with any number and mix of operands, SelectMatch, PartitionMatch) on a reachable
+      heap whose references exist: succeeds (no panic), returns what the value layer returns on
+      the abstraction, keeps the heap reachable, and modifies no object other than the receiver of
+      a mutator — in particular no operand of Union/Intersection/Difference/Equal/IsSubset/... *)
+  Theorem C16_no_operand_modified :
+    forall (c : cmd A) (h : heap A), good A cmp h -> hvalid A h c ->
+      exists o h', hexec A zero grow eqb cmp draw h c = Ok (o, h') /\ good A cmp h' /\
+        vexec A eqb cmp draw (mkvs A (abs A h) (tick h)) c = Ok (o, mkvs A (abs A h') (tick h')) /\
+        length (objs h) <= length (objs h') /\
+        (forall y, y < length (objs h) -> target A c <> Some y ->
+                   nth_error (abs A h') y = nth_error (abs A h) y).
+  Proof. intros; eapply hexec_good; eauto. Qed.
+
+  (** Every well-scoped program from the empty heap runs without panic and yields exactly the
+      outputs and final set values of the value layer. *)
+  Theorem C16_heap_refines_values :
+    forall (cs : list (cmd A)), scoped A 0 cs ->
+      exists outs h', hrun A zero grow eqb cmp draw (empty_heap A) cs = Ok (outs, h') /\ good A cmp h' /\
+        vrun A eqb cmp draw (mkvs A [] 0) cs = Ok (outs, mkvs A (abs A h') (tick h')).
+  Proof. intros cs H. eapply (hrun_good A zero grow eqb cmp draw); eauto. apply good_empty. Qed.
+
+  (** Clone is independent of its source: the clone is a new object with the same members whose
+      backing array is shared with no other object; any sequence of Add/Remove/RemoveAll applied
+      to the clone leaves the source's value unchanged, and vice versa. *)
+  Theorem C16_clone_independent :
+    forall (h : heap A) (r : nat), good A cmp h -> r < length (objs h) ->
+      exists c h1, h_clone A zero h r = Ok (c, h1) /\ good A cmp h1 /\ c = length (objs h) /\ c <> r /\
+        nth_error (abs A h1) r = nth_error (abs A h) r /\
+        nth_error (abs A h1) c = option_map (vclone A) (nth_error (abs A h) r) /\
+        shared_arrays A h1 = [] /\
+        (forall cs, targets A c cs ->
+           exists outs h2, hrun A zero grow eqb cmp draw h1 cs = Ok (outs, h2) /\ good A cmp h2 /\
+                           nth_error (abs A h2) r = nth_error (abs A h) r) /\
+        (forall cs, targets A r cs ->
+           exists outs h2, hrun A zero grow eqb cmp draw h1 cs = Ok (outs, h2) /\ good A cmp h2 /\
+                           nth_error (abs A h2) c = nth_error (abs A h1) c).
+  Proof. intros; eapply clone_independent; eauto. Qed.
+
+  (** On every reachable heap no two objects share a backing array (the observable the harness
+      checks through the VerifMembers hook). *)
+  Theorem C16_no_shared_arrays : forall h : heap A, good A cmp h -> shared_arrays A h = [].
+  Proof. intros h [W _]. now apply wfh_no_shared. Qed.
 End C16.
 
 (** Non-vacuity: Go [int] with the natural order satisfies the laws; a concrete history. *)
@@ -101,3 +155,7 @@ Print Assumptions C16_comparisons.
 Print Assumptions C16_union.
 Print Assumptions C16_intersection.
 Print Assumptions C16_difference.
+Print Assumptions C16_no_operand_modified.
+Print Assumptions C16_heap_refines_values.
+Print Assumptions C16_clone_independent.
+Print Assumptions C16_no_shared_arrays.
